@@ -274,6 +274,47 @@ class Check:
                 self.worker_rel = Proc(build_worker(release=True), timeout=900)
         except BuildError as e:
             self.fail_build(str(e))
+        self.run_corpus()
+
+    def run_corpus(self):
+        """minimised past failures (corpus/<prop>/*.case) run first: the real code must answer every request
+        (no panic, abort or hang), and where the request is stateless the model must answer the same"""
+        d = os.path.join(ROOT, 'corpus', self.prop)
+        if not os.path.isdir(d):
+            return
+        import shutil
+        for fn in sorted(os.listdir(d)):
+            lines = [l.rstrip('\n') for l in open(os.path.join(d, fn)) if not l.startswith('#') and l.strip()]
+            if not lines:
+                continue
+            base = os.path.join(ROOT, '.cache', 'run', 'corpus-%s-%d' % (self.prop, os.getpid()))
+            fixed = []
+            for l in lines:
+                t = l.split(' ')
+                if t[0] == 'NEW' and len(t) > 1:
+                    t[1] = os.path.join(base, os.path.basename(t[1]))
+                    l = ' '.join(t)
+                fixed.append(l)
+            stateless = all(l.split(' ')[0] in ('EVJ', 'EVA', 'EVP', 'TGJ', 'TGP', 'TGA', 'FLJ', 'FLP', 'FLA', 'MAT', 'UNE', 'ESC', 'HEX', 'ADR') for l in fixed)
+            try:
+                w = self.worker.run(fixed + ([] if stateless else ['RMD']))
+            except Exception as e:
+                self.violation('oracle', 'corpus %s: the worker did not survive: %s' % (fn, str(e)[:80]), fixed)
+                continue
+            finally:
+                shutil.rmtree(base, ignore_errors=True)
+            self.evaluations += len(fixed)
+            self.count('corpus_cases')
+            for l, a in zip(fixed, w):
+                if a.split(' ')[0] in ('panic', 'ABORT', 'HANG', 'GUARD') or 'HUNG' in a:
+                    self.violation('oracle', 'corpus %s: %s did not return a value or an error: %s' % (fn, l[:30], a[:60]), fixed)
+                    break
+            if stateless:
+                m = self.model.run(fixed)
+                for l, a, b in zip(fixed, w, m):
+                    if a != b:
+                        self.violation('corr', 'corpus %s: impl %s model %s' % (fn, a[:60], b[:60]), [l], found=False)
+                        break
 
     def fail_build(self, msg):
         path = self.write_replay('build', ['# build failure (the check could not run)', msg])
